@@ -29,7 +29,12 @@ def run_one(m, verbose=False):
     try:
         shutil.copytree(REPO / 'plinio', tmp / 'plinio',
                         ignore=shutil.ignore_patterns('__pycache__'))
-        for ed in m['edits']:
+        if m.get('patch'):
+            r = subprocess.run(['patch', '-p1', '-s', '-i', str(VERIF / m['patch'])], cwd=tmp,
+                               capture_output=True, text=True)
+            if r.returncode != 0:
+                return m, 'STALE', 'patch does not apply: ' + (r.stdout + r.stderr)[-300:]
+        for ed in m.get('edits', []):
             f = tmp / ed['file']
             s = f.read_text()
             if s.count(ed['old']) != ed.get('count', 1):
@@ -73,6 +78,12 @@ def main():
     ap.add_argument('-v', action='store_true')
     a = ap.parse_args()
     muts = json.loads((VERIF / 'selftest' / 'mutants.json').read_text())
+    # seeded changes written by independent sub-agents (see seeded/*/meta.json)
+    for d in sorted((VERIF / 'seeded').glob('*/meta.json')):
+        meta = json.loads(d.read_text())
+        muts.append({'id': 'seed-' + d.parent.name, 'props': [meta['breaks_property']],
+                     'why': 'seeded change, see ' + str(d.parent.relative_to(VERIF)),
+                     'patch': str((d.parent / 'patch.diff').relative_to(VERIF)), 'expect': 'refuted'})
     if a.only:
         only = set(a.only.split(','))
         muts = [m for m in muts if only & set(m['props'])]
